@@ -20,6 +20,7 @@ def main():
     for t in table:
         r = {"id": t["id"]}
         clean()
+        os.makedirs(os.path.dirname(os.path.join(WT, t["demo_dest"])), exist_ok=True)
         shutil.copy(os.path.join(t["dir"], "demo.rs"), os.path.join(WT, t["demo_dest"]))
         rc, out = sh(t["demo_cmd"]); r["demo_clean_rc"] = rc
         r["demo_clean_tail"] = out[-300:]
